@@ -1,7 +1,13 @@
 (* Props/C01.v -- property C01: save then load returns the same document.
-   Rung 1: theorems about the save model (Model/Save.v) that hold for EVERY document.
-   Statements only; proofs live in Proofs/SaveProofs.v. *)
-From LV Require Import Base.Bytes Base.Sx Model.Obj Model.Writer Model.Save Proofs.SaveProofs.
+   Part A (rung 1): theorems about the save model (Model/Save.v) that hold for EVERY document.
+   Part B (rung 2/3, partial): the loader model (Model/Loader.v) reads back what the save model wrote --
+   per object, at the recorded offset, and for the frame of the file (header, binary mark, startxref).
+   The whole-file statement is C01_full below; what is missing for it is said there.
+   Statements only; proofs live in Proofs/SaveProofs.v, LoadProofs.v, LoadProofsFile.v (and, for the
+   object level, in C14's LexProofs / LitStringProofs / RealProofs / ObjectRtProofs). *)
+From LV Require Import Base.Bytes Base.Sx Model.Obj Model.Writer Model.Parser Model.Save Model.Xref Model.Loader
+  Model.Utf Gen.Lex Proofs.LexProofs Proofs.ObjectRtProofs Proofs.SaveProofs Spec.SaveSpec Proofs.LoadProofs
+  Proofs.LoadProofsFile.
 
 Local Open Scope N_scope.
 
@@ -10,11 +16,11 @@ Local Open Scope N_scope.
    position (mod 2^32, the `as u32` of the code) of that object's "id gen obj" header in the file. *)
 Theorem C01_offsets_sound :
   forall d id off g,
-    xget (xmap_of d) id = Some (XNormal off g) ->
+    Save.xget (xmap_of d) id = Some (Save.XNormal off g) ->
     exists o pre post,
       In ((id, g), o) (d_objects d) /\ skipped o = false /\
       body_of d = pre ++ write_indirect_object id g o ++ post /\
-      off = blen pre mod u32_mod.
+      off = Save.blen pre mod u32_mod.
 Proof. exact offsets_sound. Qed.
 
 (* (2) offsets_exact, completeness.  With pairwise distinct object numbers every object that is
@@ -24,7 +30,7 @@ Theorem C01_offsets_complete :
     NoDup (obj_numbers (d_objects d)) -> In ((id, g), o) (d_objects d) -> skipped o = false ->
     exists pre post,
       body_of d = pre ++ write_indirect_object id g o ++ post /\
-      xget (xmap_of d) id = Some (XNormal (blen pre mod u32_mod) g).
+      Save.xget (xmap_of d) id = Some (Save.XNormal (blen pre mod u32_mod) g).
 Proof. exact offsets_complete. Qed.
 
 (* (3) startxref_exact.  A successful save is  body ++ cross-reference part ++ "\nstartxref\n<n>\n%%EOF"
@@ -34,34 +40,34 @@ Theorem C01_startxref_exact :
   forall xt d,
     so_status (save xt d) = SaveOk ->
     exists mid,
-      so_bytes (save xt d) = body_of d ++ mid ++ startxref_bytes (blen (body_of d)) /\
+      so_bytes (save xt d) = body_of d ++ mid ++ startxref_bytes (Save.blen (body_of d)) /\
       match xt with
       | XTable => mid = write_xref (xmap_of d) (d_max_id d + 1) ++ trailer_bytes (trailer_table d)
       | XStream =>
-        let p := xstream_parts d (xmap_of d) (blen (body_of d) mod u32_mod) in
+        let p := xstream_parts d (xmap_of d) (Save.blen (body_of d) mod u32_mod) in
         mid = write_indirect_object (d_max_id d + 1) 0 (OStream (fst (fst p)) (snd (fst p)))
       end.
 Proof. exact save_ok_shape. Qed.
 
 (* (4) Cross-reference table entries are 20 bytes, "nnnnnnnnnn ggggg k \n". *)
 Theorem C01_xref_entry_20 :
-  forall e, xentry_in_range e -> length (write_xref_entry e) = 20%nat.
+  forall e : Save.xentry, xentry_in_range e -> length (write_xref_entry e) = 20%nat.
 Proof. exact xref_entry_20. Qed.
 
 (* (5) Which entry the table prints for which object number: entry 0 is the unusable free entry,
    a number below Size is printed iff the map has it, nothing at or above Size.  (6) The same for
    the cross-reference stream, whose range is 1..Size with Size the stream object itself. *)
 Theorem C01_table_sections :
-  forall x size j,
+  forall (x : Save.xmap) size j,
     1 <= size ->
     sections_get (table_sections x size) j =
       if j =? 0 then Some XUnusable
-      else if j <? size then option_map table_conv (xget x j) else None.
+      else if j <? size then option_map table_conv (Save.xget x j) else None.
 Proof. exact table_sections_get. Qed.
 
 Theorem C01_stream_sections :
-  forall x size j,
-    sections_get (stream_sections x size) j = if (1 <=? j) && (j <=? size) then xget x j else None.
+  forall (x : Save.xmap) size j,
+    sections_get (stream_sections x size) j = if (1 <=? j) && (j <=? size) then Save.xget x j else None.
 Proof. exact stream_sections_get. Qed.
 
 (* non-vacuity: a two-object document (a dictionary and a stream with generation 2, sparse
@@ -75,7 +81,7 @@ Definition ex_doc : doc :=
 
 Theorem C01_example :
   so_status (save XTable ex_doc) = SaveOk /\ NoDup (obj_numbers (d_objects ex_doc)) /\
-  xmap_of ex_doc = [(1, XNormal 15 0); (3, XNormal 48 2)] /\
+  xmap_of ex_doc = [(1, Save.XNormal 15 0); (3, Save.XNormal 48 2)] /\
   save_table ex_doc =
     bs "%PDF-1.5" ++ [x0a; x25; xbb; xad; xc0; xde; x0a] ++
     bs "1 0 obj
@@ -103,6 +109,89 @@ Proof.
   - split; vm_compute; reflexivity.
 Qed.
 
+(* ------------------------------------------------------------------------------------------
+   Part B.  The loader reads back what save wrote.
+   ------------------------------------------------------------------------------------------ *)
+
+(* (7) Per-object round trip, any continuation: an indirect object written by the writer -- a
+   direct object of any of the nine direct kinds nested up to MAX_BRACKET levels, or a stream with
+   Length = its content length -- is parsed back by the loader's indirect-object parser to its
+   normal form (an integral real becomes the integer; nothing else changes: identical bytes in
+   names, strings, keys and stream bodies, same nesting and references). *)
+Theorem C01_object_roundtrip :
+  forall id g o post,
+    id <= u32_max -> g <= u16_max -> top_wf o -> (nest o <= MAX_DEPTH)%nat ->
+    indirect_object (write_indirect_object id g o ++ post) None = IOk (id, g) (norm_obj o).
+Proof. exact indirect_object_rt. Qed.
+
+(* (8) ... and it is found where the cross-reference map says: in a successfully saved file below
+   4 GiB (either format), every object that is not dropped by the skip rule has a map entry whose
+   offset lies inside the file and at which the loader parses exactly (id, gen) and norm o. *)
+Theorem C01_object_at_offset_partial :
+  forall xt d id g o,
+    so_status (save xt d) = SaveOk -> small_file xt d ->
+    NoDup (obj_numbers (d_objects d)) -> In ((id, g), o) (d_objects d) -> skipped o = false ->
+    id <= u32_max -> g <= u16_max -> top_wf o -> (nest o <= MAX_DEPTH)%nat ->
+    exists off,
+      Save.xget (xmap_of d) id = Some (Save.XNormal off g) /\
+      off <= Loader.blen (so_bytes (save xt d)) /\
+      indirect_object (from off (so_bytes (save xt d))) None = IOk (id, g) (norm_obj o).
+Proof. exact object_at_recorded_offset. Qed.
+
+(* (9) The frame of the file.  The header line gives back the version, line 2 the binary mark, and
+   get_xref_start -- the two last-match searches over the tail and the startxref parser -- returns
+   the number save printed (by C01_startxref_exact: the offset of the cross-reference part). *)
+Theorem C01_header_roundtrip :
+  forall v rest, no_eol v -> utf8_decode v <> None -> header (bs "%PDF-" ++ v ++ x0a :: rest) = Some v.
+Proof. exact header_rt. Qed.
+
+Theorem C01_binary_mark_roundtrip :
+  forall v m rest, no_eol v -> binary_mark_ok m = true ->
+    read_binary_mark (bs "%PDF-" ++ v ++ x0a :: x25 :: m ++ x0a :: rest) = m.
+Proof. exact binary_mark_rt. Qed.
+
+Theorem C01_startxref_roundtrip :
+  forall front n, n <= Loader.blen front -> 25 < Loader.blen front -> n < 10 ^ 14 ->
+    get_xref_start (front ++ startxref_bytes n) = Some n.
+Proof. exact get_xref_start_rt. Qed.
+
+(* The whole-file statement (DESIGN: C01_roundtrip and C01_again), for both formats.  NOT PROVED.
+   Proved pieces: (1)-(9).  Missing: (a) the cross-reference table printed by write_xref is parsed
+   back by Xref.xref_table to the writer's map (and the same for the cross-reference stream through
+   decode_xref_plain); (b) the trailer dictionary round trip at file level (an instance of C14's
+   dictionary_entry_rt); (c) the composition: read_entries over the parsed map with (8), the size
+   correction, and the second cycle. *)
+Definition bookkeeping : list bytes :=
+  [K_Type; Save.K_Size; Save.K_W; Save.K_Index; K_Length; Save.K_Prev; K_Filter].
+Definition is_xref_stream (o : obj) : bool :=
+  match o with OStream d _ => has_type d K_XRef | _ => false end.
+Definition user_objects (m : objmap) : objmap := filter (fun io => negb (is_xref_stream (snd io))) m.
+Definition same_trailer (t t' : dict) : Prop :=
+  forall k, ~ In k bookkeeping -> dict_get t' k = dict_get (norm_dict t) k.
+Definition same_doc (d d' : doc) : Prop :=
+  d_version d' = d_version d /\ user_objects (d_objects d') = norm_objects (d_objects d) /\
+  same_trailer (d_trailer d) (d_trailer d').
+Definition xtype_of (xt : xref_type) : xtype := match xt with XTable => XTTable | XStream => XTStream end.
+Definition with_objects (d : doc) (m : objmap) : doc :=
+  {| d_version := d_version d; d_binary_mark := d_binary_mark d; d_trailer := d_trailer d;
+     d_objects := m; d_max_id := d_max_id d |}.
+
+Definition C01_full : Prop :=
+  forall xt d, savable d -> known_deep d = false -> small_file xt d ->
+    exists d1 d2,
+      load (so_bytes (save xt d)) = LOk d1 (xtype_of xt) /\ same_doc d d1 /\
+      load (so_bytes (save xt d1)) = LOk d2 (xtype_of xt) /\ same_doc d1 d2 /\ same_doc d d2.
+
+(* the known-finding class is inhabited and the domain is not empty *)
+Theorem C01_known_class_witness :
+  exists d, known_deep d = true /\
+            d_objects d = [((1, 0), Nat.iter 101 (fun o => OArr [o]) (OInt 7))].
+Proof.
+  exists {| d_version := bs "1.5"; d_binary_mark := [xbb; xad; xc0; xde]; d_trailer := [];
+            d_objects := [((1, 0), Nat.iter 101 (fun o => OArr [o]) (OInt 7))]; d_max_id := 1 |}.
+  split; [vm_compute; reflexivity | reflexivity].
+Qed.
+
 Print Assumptions C01_offsets_sound.
 Print Assumptions C01_offsets_complete.
 Print Assumptions C01_startxref_exact.
@@ -110,3 +199,9 @@ Print Assumptions C01_xref_entry_20.
 Print Assumptions C01_table_sections.
 Print Assumptions C01_stream_sections.
 Print Assumptions C01_example.
+Print Assumptions C01_object_roundtrip.
+Print Assumptions C01_object_at_offset_partial.
+Print Assumptions C01_header_roundtrip.
+Print Assumptions C01_binary_mark_roundtrip.
+Print Assumptions C01_startxref_roundtrip.
+Print Assumptions C01_known_class_witness.
